@@ -1,0 +1,5 @@
+//go:build !verif
+
+package watcher
+
+func verifGate(p *Changes, dir string, n int) {}
